@@ -13,6 +13,12 @@ func (ctx context) generatePrimaryTable(ta sql.Table, cols columnsCode) []gen.De
 	goTypeName := ta.TableName()
 	sqlTableName := gen.SQLTableName(goTypeName)
 
+	// arguments of the UPDATE statement: the values (there may be none), then the id
+	updateArgs := "item." + ta.Columns[primaryIndex].Field.Field.Name()
+	if cols.goValueFieldsNoPrimary != "" {
+		updateArgs = cols.goValueFieldsNoPrimary + ", " + updateArgs
+	}
+
 	content := fmt.Sprintf(`
 func scanOne%[1]s(row scanner) (%[1]s, error) {
 	var item %[1]s
@@ -101,7 +107,7 @@ func (item %[1]s) Update(tx DB) (out %[1]s, err error) {
 		) = (
 		%[6]s
 		) WHERE id = $%[8]d RETURNING %[10]s;
-		`+"`,"+`%[7]s, item.%[9]s)
+		`+"`,"+`%[9]s)
 	return Scan%[1]s(row)
 }
 
@@ -121,7 +127,7 @@ func Delete%[1]ssByIDs(tx DB, ids ...%[2]s) ([]%[2]s, error) {
 }	
 `, goTypeName, idTypeName, sqlTableName,
 		cols.goScanFields, cols.sqlColumnNamesNoPrimary, cols.sqlPlaceholdersNoPrimary, cols.goValueFieldsNoPrimary,
-		cols.columnsCount, ta.Columns[primaryIndex].Field.Field.Name(),
+		cols.columnsCount, updateArgs,
 		cols.sqlColumnNames,
 	)
 
